@@ -49,6 +49,15 @@ func VH_C07_NewLunar() {
 		vAssert("solar-valid", specValidYmd(sol.year, sol.month, sol.day) && sol.hour == h && sol.minute == mi && sol.second == s)
 		back := sol.GetLunar()
 		vAssert("image-of-a-civil-day", back.year == Y && back.month == mo && back.day == dy)
+		// the Taoist / Buddhist objects report the triple they were built from, on both routes (constructor, conversion)
+		vEach(func() {
+			t, f := NewTao(Y+2697, mo, dy, h, mi, s), NewFoto(Y+544, mo, dy, h, mi, s)
+			vAssert("tao-fields", t.GetYear() == Y+2697 && t.GetMonth() == mo && t.GetDay() == dy)
+			vAssert("foto-fields", f.GetYear() == Y+544 && f.GetMonth() == mo && f.GetDay() == dy)
+			bt, bf := back.GetTao(), back.GetFoto()
+			vAssert("tao-of-the-civil-day", bt.GetYear() == Y+2697 && bt.GetMonth() == mo && bt.GetDay() == dy)
+			vAssert("foto-of-the-civil-day", bf.GetYear() == Y+544 && bf.GetMonth() == mo && bf.GetDay() == dy)
+		})
 	}
 	vReach("C07b")
 }
